@@ -13,6 +13,7 @@ import (
 	"github.com/cnotch/ipchub/config"
 	"github.com/cnotch/ipchub/media"
 	irtsp "github.com/cnotch/ipchub/service/rtsp"
+	iwsp "github.com/cnotch/ipchub/service/wsp"
 )
 
 // C12: RTSP session automaton.  Real sessions (rtsp.CreateAcceptHandler on net.Pipe,
@@ -815,6 +816,7 @@ func runC12(c *Ctx) {
 		"distinct by script text; non-trivial when at least one request passes the OPTIONS/TEARDOWN pre-handling. ParseTransport cases: (initial value, track, header strings), distinct by text, non-trivial when the header contains ';'"
 
 	runPT(c, g)
+	runWspDecode(c)
 
 	var scripts []script
 	for _, l := range c.CorpusLines() {
@@ -1230,4 +1232,106 @@ func implPT(init string, calls [][2]string) (out string) {
 	q := func(a [4]int) string { return fmt.Sprintf("%d,%d,%d,%d", a[0], a[1], a[2], a[3]) }
 	return fmt.Sprintf("err=%s mode=%d append=%s type=%d ch=%s cp=%s sp=%s ports=%s ip=%s ttl=%d src=%s", errs, int(t.Mode), B01(t.Append), int(t.Type),
 		q(t.Channels), q(t.ClientPorts), q(t.ServerPorts), q(t.Ports), hx(t.MulticastIP), t.TTL, hx(t.Source))
+}
+
+// ---------------------------------------------------------------- wsp.DecodeStringRequest, directly
+
+func implWspDecode(s string) (out string) {
+	defer func() {
+		if r := recover(); r != nil {
+			out = "panic"
+		}
+	}()
+	q, err := iwsp.DecodeStringRequest(s)
+	if err != nil {
+		e := err.Error()
+		switch {
+		case strings.Contains(e, "missing"):
+			return "err=separator"
+		case strings.Contains(e, "first line"):
+			return "err=firstline"
+		case strings.Contains(e, "proto"):
+			return "err=proto"
+		case strings.Contains(e, "command"):
+			return "err=command"
+		}
+		return "err=?" + e
+	}
+	keys := make([]string, 0, len(q.Header))
+	for k := range q.Header {
+		keys = append(keys, hx(k))
+	}
+	sort.Strings(keys)
+	var hs []string
+	for _, k := range keys {
+		hs = append(hs, k+":"+hx(q.Header[string(Unhx(k))]))
+	}
+	h := "none"
+	if len(hs) > 0 {
+		h = strings.Join(hs, ",")
+	}
+	return fmt.Sprintf("cmd=%s h=%s body=%s", hx(q.Cmd), h, hx(q.Body))
+}
+
+func runWspDecode(c *Ctx) {
+	r := c.Rng
+	var cases []string
+	for _, l := range c.CorpusLines() {
+		f := strings.Fields(l)
+		if len(f) == 3 && f[0] == "c12" && f[1] == "wspdec" {
+			cases = append(cases, string(Unhx(f[2])))
+		}
+	}
+	if c.Replay == "" {
+		cmds := []string{"INIT", "JOIN", "WRAP", "GET_INFO", "SWITCH", "wrap", "PLAY", "", "WRAP x"}
+		protos := []string{"WSP/1.1", "WSP/1.1", "WSP/1.1", "WSP/1.0", "wsp/1.1", "", " WSP/1.1"}
+		hdrs := []string{"seq: 1", "seq:2", "channel: 12345", "proto: rtsp", "host: 1.2.3.4", "port: 554", " seq : 7 ", "seq: \"9\"", "novalue", ":", "a:b:c", "seq: 1\r", ""}
+		bodies := []string{"", "OPTIONS * RTSP/1.0\r\nCSeq: 1\r\n\r\n", "x", "\r\n\r\nmore", " "}
+		n := c.Budget(6000, 60000)
+		for i := 0; i < n; i++ {
+			var b strings.Builder
+			b.WriteString(protos[r.Intn(len(protos))])
+			if !r.Chance(5) {
+				b.WriteString(" ")
+			}
+			b.WriteString(cmds[r.Intn(len(cmds))])
+			eol := "\r\n"
+			if r.Chance(10) {
+				eol = "\n"
+			}
+			for k := r.Intn(4); k > 0; k-- {
+				b.WriteString(eol)
+				b.WriteString(hdrs[r.Intn(len(hdrs))])
+			}
+			if !r.Chance(8) {
+				b.WriteString("\r\n\r\n")
+			}
+			b.WriteString(bodies[r.Intn(len(bodies))])
+			s := b.String()
+			if r.Chance(10) && len(s) > 0 { // a byte-level mutation
+				bs := []byte(s)
+				bs[r.Intn(len(bs))] = " \r\n:W/"[r.Intn(6)]
+				s = string(bs)
+			}
+			cases = append(cases, s)
+		}
+	}
+	lines := make([]string, len(cases))
+	for i, s := range cases {
+		lines[i] = "c12 wspdec " + hx(s)
+	}
+	outs := c.Drive(lines)
+	for i, s := range cases {
+		impl := implWspDecode(s)
+		c.Eval(lines[i], strings.Contains(s, "\r\n\r\n"))
+		c.Count("wspdec-cases")
+		if strings.HasPrefix(impl, "err=") {
+			c.Count("wspdec-" + impl)
+		} else {
+			c.Count("wspdec-ok")
+		}
+		if impl != outs[i] {
+			c.Find(Finding{Kind: "corr", Class: "wsp-decode", Case: lines[i], Impl: impl, Model: outs[i], Detail: fmt.Sprintf("%q", s)})
+		}
+	}
 }
